@@ -158,7 +158,7 @@ pub fn draw_cpu(rng: &mut Rng, rows: usize) -> Cpu {
         3 => Some(rows.max(1)),
         4 => Some(rows + 1),
         5 => Some(rows.div_ceil(2).max(1)),
-        6 => Some(*rng.pick(&[17, 31, 32, 33, 64])),
+        6 => Some(*rng.pick(&[17, 31, 32, 33, 64, 64, 128, 255, 1024])),
         7 => Some(16),
         _ => Some(rng.range(1, 16)),
     }
